@@ -254,3 +254,23 @@ def c03_runs(tier, seed):
                                                           {"kind": "cachedrv", "problem": {k: p.get(k) for k in ("props", "cats", "line", "event", "context", "model")},
                                                            "input": p["replay_input"]}))
     return out
+
+
+def c09_runs(tier, seed):
+    """Cache-level part of C09: no placement of eviction / deletion relative to stores and lookups leaves a later operation
+    hanging (the request that issued it would hang with it). Targeted generation, eviction traps on both backends."""
+    from props.cachecommon import confirmed
+    out = {"violations": [], "notes": [], "coverage": {"cache_level_families": []}, "traces": 0}
+    for be in ("memory", "file"):
+        for tf in [t for t in trap_families(be) if "evict" in t["name"]]:
+            r = run_traps(tf, 8 if tier == "quick" else 60, seed, timeout=25 if tier == "quick" else 300, workers=5)
+            out["traces"] += r["behaviours"]
+            out["coverage"]["cache_level_families"].append({k: r[k] for k in ("family", "behaviours", "lines", "consumed")})
+            done = False
+            for p in r["problems"]:
+                if "hang" in p["cats"] and not done and confirmed(tf, p, "C14"):
+                    done = True
+                    out["violations"].append(vlib.save_replay("C09", "%s-%s-seed%d.json" % (tf["name"], vlib.digest(p["replay_input"]), seed),
+                                                              {"kind": "cachedrv", "problem": {k: p.get(k) for k in ("props", "cats", "line", "event", "context", "model")},
+                                                               "input": p["replay_input"]}))
+    return out
